@@ -9,6 +9,7 @@ import (
 	"net/http"
 	"net/url"
 	"sort"
+	"strconv"
 	"strings"
 	"time"
 
@@ -363,6 +364,7 @@ func runRestHostile(c fw.Case) fw.Result {
 	for i := 0; i < sp.Steps; i++ {
 		var rt route
 		body := ""
+		badNum := false // a numeric path parameter that is not a number
 		switch rng.Intn(16) {
 		case 0:
 			rt = route{"GET", "/process/" + pick(names)}
@@ -371,7 +373,9 @@ func runRestHostile(c fw.Case) fw.Result {
 		case 2:
 			rt = route{"GET", "/process/ports/" + pick(names)}
 		case 3:
-			rt = route{"GET", "/process/logs/" + pick(names) + "/" + pick(nums) + "/" + pick(nums)}
+			a, b := pick(nums), pick(nums)
+			rt = route{"GET", "/process/logs/" + pick(names) + "/" + a + "/" + b}
+			badNum = !isInt(a) || !isInt(b)
 		case 4:
 			rt = route{"PATCH", "/process/stop/" + pick(names)}
 		case 5:
@@ -388,6 +392,7 @@ func runRestHostile(c fw.Case) fw.Result {
 				n = "7"
 			}
 			rt = route{"PATCH", "/process/scale/" + pick(names) + "/" + n}
+			badNum = !isInt(n)
 		case 9:
 			rt, body = route{"POST", "/process"}, pickRaw(bodies)
 		case 10:
@@ -407,6 +412,9 @@ func runRestHostile(c fw.Case) fw.Result {
 		ctype := []string{"application/json", "application/json", "", "text/plain", "application/x-www-form-urlencoded", "application/xml", "application/x-yaml", "multipart/form-data"}[rng.Intn(8)]
 		status, resp := rawReqCT(api, rt.method, rt.path, body, ctype)
 		r.Count("hostile_requests", 1)
+		if badNum && status >= 200 && status < 300 {
+			r.Add("C19", "invalid-parameter-accepted", "%s %s carries a non-numeric path parameter and was answered %d", rt.method, truncS(rt.path, 100), status)
+		}
 		if body != "" && !json.Valid([]byte(body)) && status >= 200 && status < 300 {
 			r.Add("C19", "malformed-body-accepted", "%s %s with the malformed body %q (Content-Type %q) answered %d", rt.method, rt.path, truncS(body, 60), ctype, status)
 		}
@@ -440,6 +448,14 @@ func runRestHostile(c fw.Case) fw.Result {
 	if st, _ := rawReq(api, "GET", "/live", ""); st != 200 {
 		r.Add("C19", "not-alive-after-hostile", "/live answered %d at the end", st)
 	}
+	if len(r.Findings) > 0 {
+		// what gin's recovery middleware logged (panic value and stack)
+		ge := ginErrors.String()
+		if len(ge) > 6000 {
+			ge = ge[:6000]
+		}
+		r.Witness = append(r.Witness, strings.Split(ge, "\n")...)
+	}
 	done := make(chan struct{})
 	go func() { _ = env.Runner.ShutDownProject(); close(done) }()
 	select {
@@ -460,6 +476,15 @@ func runRestHostile(c fw.Case) fw.Result {
 		r.Sample = shapes
 	}
 	return r
+}
+
+// isInt: what strconv.Atoi accepts (after the unescaping the router does)
+func isInt(s string) bool {
+	if u, err := url.PathUnescape(s); err == nil {
+		s = u
+	}
+	_, err := strconv.Atoi(s)
+	return err == nil
 }
 
 func isASCII(s string) bool {
